@@ -11,6 +11,11 @@ import (
 )
 
 func writeJson(w io.Writer, response *graphql.Response) {
+	if response == nil {
+		// an operation that ended without producing a payload (a subscription whose stream
+		// closed before its first event) is still answered with a response object
+		response = &graphql.Response{Data: json.RawMessage("null")}
+	}
 	b, err := json.Marshal(response)
 	if err != nil {
 		panic(fmt.Errorf("unable to marshal %s: %w", string(response.Data), err))
